@@ -8,9 +8,9 @@ EXTRA = ["x", "X", "#", "$", "%", "~", "!", "@", "^", "&", "*"]
 
 
 @st.composite
-def tm_specs(draw, max_states=5, sigma=None, halting_initial=True):
+def tm_specs(draw, max_states=5, sigma=None, halting_initial=True, pool=POOL):
     n = draw(st.integers(2, max_states))
-    Q = draw(names(n, POOL))
+    Q = draw(names(n, pool))
     S = list(sigma) if sigma is not None else draw(st.sampled_from([["a"], ["a", "b"], ["0", "1"], []]))
     blank = draw(st.sampled_from(BLANKS))
     G = S + [blank] + draw(st.lists(st.sampled_from(EXTRA), max_size=1))
@@ -29,3 +29,24 @@ def tm_specs(draw, max_states=5, sigma=None, halting_initial=True):
                 m = "L" if draw(st.integers(0, 2)) == 0 else "R"
                 d.append([p, a, q, b, m])
     return {"Q": Q, "S": S, "G": G, "d": d, "q0": q0, "acc": acc, "rej": rej, "blank": blank}
+
+
+@st.composite
+def walker_tm_specs(draw, lengths=(150, 450, 950, 1100)):
+    """Machines that need many steps on short words: a chain of k states walks k cells to the right and then accepts
+    (or rejects / keeps running on a self loop), whatever it reads."""
+    k = draw(st.sampled_from(list(lengths)))
+    S = draw(st.sampled_from([["a"], ["a", "b"]]))
+    blank = draw(st.sampled_from(BLANKS))
+    G = S + [blank]
+    Q = ["w%d" % i for i in range(k)] + ["yes", "no"]
+    end = draw(st.sampled_from(["accept", "accept", "reject", "loop"]))
+    d = []
+    for i in range(k):
+        for a in G:
+            nxt = Q[i + 1] if i + 1 < k else ("yes" if end == "accept" else ("no" if end == "reject" else Q[i]))
+            d.append([Q[i], a, nxt, a, "R"])
+    first_reject = draw(st.booleans()) and len(S) == 2
+    if first_reject:
+        d = [t for t in d if not (t[0] == Q[0] and t[1] == S[1])]     # words starting with the second symbol are rejected at once (missing transition)
+    return {"Q": Q, "S": S, "G": G, "d": d, "q0": Q[0], "acc": "yes", "rej": "no", "blank": blank}
